@@ -115,7 +115,9 @@ package system
 // (KNOWN FINDING on the pinned tree: a number compared with a Quantity adopts the Quantity's
 // unit instead of the unit '1'; TestNormalize and TestEvaluateEquality pin that.)
 //@ func Normalize(from, to) (res)
-//@   ensures implements(from, Any) ==> res == normS(from, to)
+// (clause 1 is the known finding: only the number -> Quantity promotion; every other case of
+// the reference promotion is the last clause)
+//@   ensures implements(from, Any) && (isInteger(from) || isDecimalV(from)) && isQuantityV(to) ==> res == normS(from, to)
 //@   ensures isInteger(from) && isDecimalV(to) ==> isDecimalV(res) && decOf(res) == real(intOf(from))
 //@   ensures isInteger(from) && isQuantityV(to) ==> isQuantityV(res) && unbox(res, Quantity).value == real(intOf(from))
 //@   ensures isDecimalV(from) && isQuantityV(to) ==> isQuantityV(res) && unbox(res, Quantity).value == decOf(from)
@@ -125,6 +127,7 @@ package system
 //@   ensures istype(from, Date) && !istype(to, DateTime) ==> res == from
 //@   ensures istype(from, Date) && istype(to, DateTime) ==> istype(res, DateTime)
 //@   ensures from != nil ==> res != nil
+//@   ensures implements(from, Any) && !((isInteger(from) || isDecimalV(from)) && isQuantityV(to)) ==> res == normS(from, to)
 //@   assigns nothing
 //
 //@ func (c Collection) ToInt32() (res, err)
